@@ -28,6 +28,10 @@ import urllib.parse
 from harness import core, tlc
 from harness.tlaparse import iter_dump_states
 
+# A second configuration of the MIME tables (conf/pygopherd.conf documents that the `encoding` option can "override the
+# default entirely (ie, to remove those)"): only .bz2 is an encoding, and the mime.types file types the suffix gz.
+ALT_ENCODING = "[('.bz2', 'bzip2')]"
+ALT_MIME_LINE = "application/gzip\t\t\t\tgz\n"
 KNOWN_IDS = {"C04-gplus-length-of-compressed": "declen"}
 PY = sys.executable
 
@@ -36,15 +40,16 @@ NAMES = {
     "n_gz": "x.txt.gz", "n_tgz": "x.tgz", "n_bz2": "x.txt.bz2", "n_up": "X.TXT", "n_unk": "x.qqq",
     "n_sp": "sp ace.txt", "n_url": "r#s%t&u+v;w.txt", "n_q": "q?m.txt", "n_pct": "p%41q.txt",
     "n_hi": "caf\udce9.txt", "n_u8": "ü.txt", "n_dots": "a.b.c.txt", "n_pict": "x.pict",
+    "n_gzonly": "x.gz", "n_targz": "x.tar.gz",
 }
-QUICK_NAMES = ["n_txt", "n_html", "n_bin", "n_none", "n_gz", "n_tgz", "n_bz2", "n_up", "n_sp", "n_url", "n_q", "n_hi", "n_pict"]
+QUICK_NAMES = ["n_txt", "n_html", "n_bin", "n_none", "n_gz", "n_tgz", "n_bz2", "n_up", "n_sp", "n_url", "n_q", "n_hi", "n_pict", "n_gzonly"]
 FAMS = ["G", "Gs", "GP", "GPs", "H", "Hs", "W", "GEM", "SP"]
 PROTO = {"G": "G", "Gs": "G", "GP": "GP", "GPs": "GP", "H": "H", "Hs": "H", "W": "W", "GEM": "GEM", "SP": "SP"}
 TLS = {"Gs", "GPs", "Hs", "GEM"}
 TIERS = {
-    "quick": dict(names=QUICK_NAMES, kinds=["x", "bin", "text", "edge"], lists=["default", "full"], reps=[0],
+    "quick": dict(names=QUICK_NAMES, kinds=["x", "bin", "text", "edge"], lists=["default", "full", "altenc"], reps=[0],
                   real_stride=40, wml=dict(len1=2, len2=1)),
-    "thorough": dict(names=sorted(NAMES), kinds=["x", "bin", "text", "edge"], lists=["default", "full"], reps=[0, 1],
+    "thorough": dict(names=sorted(NAMES), kinds=["x", "bin", "text", "edge"], lists=["default", "full", "altenc"], reps=[0, 1],
                      real_stride=6, wml=dict(len1=3, len2=2)),
 }
 MC_CFG = """SPECIFICATION Spec
@@ -95,9 +100,11 @@ def block_size():
 
 _ROWS_SRC = r"""
 import configparser, json, mimetypes, os, sys
-repo, names = sys.argv[1], json.loads(sys.argv[2])
+repo, names, enc_override, mimefile = sys.argv[1], json.loads(sys.argv[2]), sys.argv[3], sys.argv[4]
 cp = configparser.ConfigParser(); cp.read(os.path.join(repo, "conf", "pygopherd.conf"))
-files = [os.path.join(repo, "conf", "mime.types")]
+if enc_override:
+    cp.set("pygopherd", "encoding", enc_override)      # the option REPLACES the defaults (documented semantics)
+files = [mimefile or os.path.join(repo, "conf", "mime.types")]
 files = [x for x in files if os.path.isfile(x) and os.access(x, os.R_OK)]
 encoding = eval(cp.get("pygopherd", "encoding"))
 mimetypes.encodings_map.clear()
@@ -112,22 +119,23 @@ print(json.dumps({"rows": out, "default": cp.get("GopherEntry", "defaultmimetype
 """
 
 
-def table_rows(names):
+def table_rows(names, enc_override="", mimefile=""):
     """The configured tables' answer per name, computed WITHOUT pygopherd (clean interpreter)."""
-    pr = subprocess.run([PY, "-S", "-c", _ROWS_SRC, core.REPO, json.dumps(names)], stdout=subprocess.PIPE,
+    pr = subprocess.run([PY, "-S", "-c", _ROWS_SRC, core.REPO, json.dumps(names), enc_override, mimefile], stdout=subprocess.PIPE,
                         stderr=subprocess.PIPE, text=True, env={"PATH": os.environ.get("PATH", "")}, timeout=120)
     if pr.returncode != 0:
         raise core.MachineryError("C04: cannot compute the MIME table rows: " + pr.stderr[-500:])
     return json.loads(pr.stdout)
 
 
-def data_module(rows, decs, rb):
+def data_module(rows, altrows, decs, rb):
     toks = sorted(rows)
-    arms = "\n            [] ".join('n = "%s" -> [type |-> "%s", enc |-> "%s"]' % (t, rows[t]["type"], rows[t]["enc"]) for t in toks)
+    arms = lambda rr: "\n            [] ".join('n = "%s" -> [type |-> "%s", enc |-> "%s"]' % (t, rr[t]["type"], rr[t]["enc"]) for t in toks)
     return ("---------------------------- MODULE MC_C04_Data ----------------------------\n"
-            "Names == {%s}\nRow(n) == CASE %s\nDecompressors == {%s}\nRealB == %d\n"
+            "Names == {%s}\nRowShipped(n) == CASE %s\nRowAlt(n) == CASE %s\n"
+            "Row(l, n) == IF l = \"altenc\" THEN RowAlt(n) ELSE RowShipped(n)\nDecompressors == {%s}\nRealB == %d\n"
             "=============================================================================\n"
-            % (", ".join('"%s"' % t for t in toks), arms, ", ".join('"%s"' % d for d in sorted(decs)), rb))
+            % (", ".join('"%s"' % t for t in toks), arms(rows), arms(altrows), ", ".join('"%s"' % d for d in sorted(decs)), rb))
 
 
 # ---- gamma: contents ----------------------------------------------------------------------------
@@ -355,7 +363,7 @@ class _ShortReader:
 
 
 class Site:
-    def __init__(self):
+    def __init__(self, alt=False):
         from harness import envsub, world
         import pygopherd.server
         self.envsub, self.world, self.srvmod = envsub, world, pygopherd.server
@@ -364,8 +372,12 @@ class Site:
         root = os.path.join(self.scratch, "r")
         os.makedirs(root)
         self.root = root
-        self.worlds = {"default": world.World(root=root, handlers="default"),
-                       "full": world.World(root=root, handlers="full")}
+        if alt:          # mimetypes are initialised once per process: the alternative tables get processes of their own
+            self.worlds = {"altenc": world.World(root=root, handlers="default", overrides={
+                ("pygopherd", "encoding"): ALT_ENCODING, ("pygopherd", "mimetypes"): _CTX["altmime"]})}
+        else:
+            self.worlds = {"default": world.World(root=root, handlers="default"),
+                           "full": world.World(root=root, handlers="full")}
         self.current = None
         self.sctx = ssl.create_default_context(ssl.Purpose.CLIENT_AUTH)
         self.sctx.load_cert_chain(os.path.join(core.REPO, "testdata", "demo.crt"), os.path.join(core.REPO, "testdata", "demo.key"))
@@ -454,8 +466,11 @@ _CTX = {}
 def _init_worker():
     global _SITE
     _SITE = Site()
-    import atexit
-    atexit.register(_SITE.close)
+
+
+def _init_worker_alt():
+    global _SITE
+    _SITE = Site(alt=True)
 
 
 def _events(site, hl, fam, sel, expected, rep, transport):
@@ -473,7 +488,7 @@ def _run_file(job):
     n, kind, tok, hl, rep, fams, transports, sched = (job[k] for k in ("n", "kind", "name", "hl", "rep", "fams", "transports", "sched"))
     site = _SITE
     reads0 = site.short_reads[0]
-    row, rb, decs = _CTX["rows"][tok], _CTX["rb"], _CTX["decs"]
+    row, rb, decs = (_CTX["altrows"] if hl == "altenc" else _CTX["rows"])[tok], _CTX["rb"], _CTX["decs"]
     data, lines = concretise(job["tokens"] if job.get("tokens") is not None else tokens_of(kind, n, rb), rep)
     isdec = job["dec"]
     name = NAMES[tok]
@@ -522,12 +537,25 @@ def main(chk, replay=None):
     from harness import cachelib
     t = TIERS[chk.tier]
     rb, rb_bound = block_size()
+    global _BASE
+    _BASE = tlc.new_scratch("c04")
+    try:
+        return _main(chk, replay, t, rb, rb_bound, cachelib)
+    finally:
+        shutil.rmtree(_BASE, ignore_errors=True)
+        _BASE = None
+
+
+def _main(chk, replay, t, rb, rb_bound, cachelib):
     tab = table_rows({k: NAMES[k] for k in t["names"]})
     rows = tab["rows"]
-    import configparser
+    altmime = os.path.join(_BASE, "alt.mime.types")
+    with open(os.path.join(core.REPO, "conf", "mime.types")) as fp, open(altmime, "w") as out:
+        out.write(fp.read() + "\n" + ALT_MIME_LINE)
+    altrows = table_rows({k: NAMES[k] for k in t["names"]}, ALT_ENCODING, altmime)["rows"]
     decs = {"gzip"}                       # what World(handlers="full") configures: {'gzip': 'zcat'}
     consts = model_constants(chk)
-    data_tla = data_module(rows, decs, rb)
+    data_tla = data_module(rows, altrows, decs, rb)
     q = lambda xs: ", ".join('"%s"' % x for x in xs)
     # 1. design model: every case with full reads; every read-size schedule on one name
     cfg = MC_CFG % dict(consts, sched="full", kinds=q(t["kinds"]), fams=q(FAMS), lists=q(t["lists"]))
@@ -587,14 +615,13 @@ def main(chk, replay=None):
         for n, h in scheds:
             jobs.append(dict(n=real_size(n, 3, rb), kind="bin", name=t["names"][0], hl="default", rep=0, fams=["G", "GP"],
                              transports=["mock"], sched=h, dec=False))
-    _CTX.update(rows=rows, rb=rb, decs=decs)
-    global _BASE
-    _BASE = tlc.new_scratch("c04")
-    try:
-        results = cachelib.pool_map(_run_file, jobs, _init_worker)
-    finally:
-        shutil.rmtree(_BASE, ignore_errors=True)
-        _BASE = None
+    _CTX.update(rows=rows, altrows=altrows, altmime=altmime, rb=rb, decs=decs)
+    jobs_main = [j for j in jobs if j["hl"] != "altenc"]
+    jobs_alt = [j for j in jobs if j["hl"] == "altenc"]
+    results = cachelib.pool_map(_run_file, jobs_main, _init_worker) if jobs_main else []
+    if jobs_alt:
+        results += cachelib.pool_map(_run_file, jobs_alt, _init_worker_alt, procs=min(4, int(os.environ.get("VERIF_PROCS") or 16)))
+    jobs = jobs_main + jobs_alt
     traces = [tr for trs, _n in results for tr in trs]
     short_reads = sum(n_ for _trs, n_ in results)
     if not replay and scheds and short_reads == 0:
@@ -636,7 +663,9 @@ def main(chk, replay=None):
         "files_written": len(jobs), "short_reads_served": short_reads, "wml_conversions_lexed": wml,
         "real_socket_traces": sum(1 for tr in traces if tr["case"]["transport"] == "real"),
         "real_tls_traces": sum(1 for tr in traces if tr["case"]["real_tls"]),
-        "constants_bound": {"block_size": rb, "from_code": rb_bound, "default_mime": tab["default"], "rows": rows},
+        "constants_bound": {"block_size": rb, "from_code": rb_bound, "default_mime": tab["default"], "rows": rows,
+                            "rows_alternative_config": altrows, "alternative_config": {"encoding": ALT_ENCODING, "mime.types": "conf/mime.types + application/gzip gz"}},
+        "alternative_config_traces": sum(1 for tr in traces if tr["case"]["hl"] == "altenc"),
         "model_constants": consts, "trace_states": tv["states"],
         "bindings": ["B1 block size, MIME rows, decompressors", "B2 every done state of MC_C04 as a real file", "B3 TraceC04"],
     }
@@ -645,7 +674,9 @@ def main(chk, replay=None):
         "the case space, the loop argument, framing/length/type/HEAD clauses and the WML inverse on byte classes",
         "TLS families run on the in-memory server with an SSLSocket-typed request object; every %d-th file and every file that "
         "needs a decompressor is also fetched over a socketpair, the TLS families through a real TLS session" % t["real_stride"],
-        "MIME rows computed in a clean interpreter (never importing pygopherd) from conf/pygopherd.conf and conf/mime.types",
+        "MIME rows computed in a clean interpreter (never importing pygopherd) from conf/pygopherd.conf and conf/mime.types; a second "
+        "configuration (encoding option listing only .bz2, mime.types typing gz) runs in worker processes of its own with the reference "
+        "computed from THAT configuration by the documented semantics (the option replaces the defaults)",
         "WAP reading: the conversion drops trailing white space of each line (str.rstrip) and turns white-space-only lines "
         "into paragraph breaks; invertibility is up to that (DESIGN.md section 9 C04)",
     ])
@@ -656,7 +687,7 @@ def selftest():
     _init_worker()
     rb, _ = block_size()
     rows = table_rows({"n_txt": NAMES["n_txt"]})["rows"]
-    _CTX.update(rows=rows, rb=rb, decs={"gzip"})
+    _CTX.update(rows=rows, altrows=rows, rb=rb, decs={"gzip"})
     trs, _ = _run_file(dict(n=rb + 1, kind="text", name="n_txt", hl="default", rep=0, fams=["GP", "H", "W"], transports=["mock"],
                             sched=[], dec=False))
     good = [{"id": x["id"], "init": x["init"], "events": x["events"]} for x in trs]
